@@ -198,6 +198,7 @@ def cases(tier):
         alpha = set(t) | set('x= \t\n\x0c')
         cs.append(LexCase('symbol/%s' % t, ('helper', 'symbol', t), [len(t), len(t) + 1, len(t) + 2], alpha, ref_symbol(t), prop='C12'))
     cs.append(LexCase('comment', ('production', 'comment'), list(range(0, N + 2)), '/*x\n', ref_comment, prop='C12'))
+    cs.append(LexCase('comment/backslash', ('production', 'comment'), list(range(0, min(N, 4) + 2)), '/x\\\n', ref_comment, prop='C12'))
     cs.append(LexCase('comment/cr', ('production', 'comment'), list(range(0, min(N, 4) + 2)), '/x\r\n', ref_comment, prop='C12'))
     cs.append(LexCase('string_literal_impl', ('production', 'string_literal_impl'), list(range(0, N + 2)), '"\\x', ref_string, prop='C06'))
     cs.append(LexCase('simple_identifier_impl', ('production', 'simple_identifier_impl'), list(range(0, N + 1)), 'aZ_1$ -', ref_simple_identifier(True), prop='C13', is_keyword=False))
